@@ -1,5 +1,5 @@
 (* C17/Witness.v — non-vacuity of the hypotheses of the theorems and concrete evaluations. *)
-From Verif Require Import Common.Base C17.Model C17.Proofs2 C17.Proofs3.
+From Verif Require Import Common.Base C17.Model C17.Proofs2 C17.Proofs3 C17.Harness C17.Clauses C17.ProofsL.
 From Coq Require Import String.
 Open Scope string_scope.
 
@@ -86,4 +86,22 @@ Proof. apply timelyb_sound. vm_compute. reflexivity. Qed.
 Example ex_untimely_pending :
   let r := logs_run cfgW 0 [LConsume 0 mdA (pl 1 [10]%N); LRecv 1 0; LRecv 250 0] in
   map (fun s => (b_n (s_batch s), s_out s)) (fst r) = [(1, [])].
+Proof. vm_compute. reflexivity. Qed.
+
+(* the link theorem is not vacuous: a linkable run case with keys, a limit, refusals, a timer firing and several
+   batches; the checker accepts the model's own observation, and REJECTS the same observation with one item's scope
+   schema URL changed (so it is not the constant 0 either) *)
+Definition vW : vcase :=
+  CRun3 0 (HC 100 false 3 4 ["Tenant"; "k2"] 2)
+    [SConsume mdA (pl 1 [10; 11]%N); SConsume mdB (pl 2 [20]%N); SConsume mdC (pl 3 [30]%N);
+     SConsume mdA (pl 1 [12; 13; 14; 15; 16]%N); STimer; SConsume mdB (pl 2 [22]%N)]
+    ([], []).
+Example ex_linkable : linkable vW /\ prop_viol (model_out vW) = 0.
+Proof. split; [simpl; exact I|vm_compute; reflexivity]. Qed.
+Example ex_model_out_vW :
+  match model_out vW with CRun3 _ _ _ obs => fst obs = [0; 0; 1; 0; 0]%N /\ List.length (snd obs) = 2 | _ => False end.
+Proof. vm_compute. auto. Qed.
+Example ex_checker_rejects :
+  prop_viol (CRun3 0 (HC 100 false 3 4 [] 0) [SConsume [] (pl 1 [10]%N)]
+               ([0%N], [([], [[((1, 1), [((2, 9), [10])])]%N])])) = 1.
 Proof. vm_compute. reflexivity. Qed.
